@@ -1,17 +1,26 @@
 import Drv.Common
 import IwModel.Model.Format
-/-! `drv fmt`: audits file images. `audit <path>` → `audit ok|BAD <reason> | db <id> <flags> m=<meta hex> <dump line> | ...` -/
+/-! `drv fmt`: audits file images. `reenc <path>` → `reenc ok <counts> | reenc BAD <first difference>`; `audit <path>` → `audit ok|BAD <reason> | db <id> <flags> m=<meta hex> <dump line> | ...` -/
 namespace Drv.Fmt
 open IwModel IwModel.Format
 
 def auditFile (path : String) (metaN : Nat) : IO String := do
-  let m ← IO.FS.readBinFile path
+  let m := imgOf (← IO.FS.readBinFile path)
   match audit m with
   | .error e => return s!"audit UNREADABLE {e}"
   | .ok (f, errs) =>
     let head := match errs with | [] => "audit ok" | e :: _ => s!"audit BAD[{errs.length}] {e}"
     let dbs := f.dbs.map fun d => s!" | db {d.id} {d.flags} m={hexOut (metaOf m d metaN)} {dumpDb d}"
     return head ++ s!" size={f.size}" ++ String.join dbs
+
+def reencFile (path : String) : IO String := do
+  let m := imgOf (← IO.FS.readBinFile path)
+  match parse m with
+  | .error e => return s!"reenc UNREADABLE {e}"
+  | .ok f =>
+    match reenc m f with
+    | .ok c => return s!"reenc ok dbs={c.dbs} nodes={c.nodes} idx={c.idx} recs={c.recs}"
+    | .error e => return s!"reenc BAD {e}"
 
 partial def main : IO Unit := do
   let stdin ← IO.getStdin
@@ -21,6 +30,7 @@ partial def main : IO Unit := do
     if line.isEmpty then return ()
     match Drv.words line with
     | ["audit", path] => stdout.putStrLn (← auditFile path 0)
+    | ["reenc", path] => stdout.putStrLn (← reencFile path)
     | ["audit", path, n] => stdout.putStrLn (← auditFile path (Drv.natArg n))
     | _ => stdout.putStrLn "bad-op"
     stdout.flush
